@@ -1,4 +1,4 @@
 SPECIFICATION MCSpec
-INVARIANTS CleanOutcome Alive CountersReturn CanStop
+INVARIANTS CleanOutcome Alive CountersReturn CanStop Usable
 PROPERTIES NoSideEffect
 CHECK_DEADLOCK FALSE
